@@ -19,6 +19,7 @@ func init() {
 	verifrt.Register("H_C05_Retransmit", H_C05_Retransmit)
 	verifrt.Register("H_C01_Versions", H_C01_Versions)
 	verifrt.Register("H_C01_Superseded", H_C01_Superseded)
+	verifrt.Register("H_C01_SupersededUnvalidated", H_C01_SupersededUnvalidated)
 }
 
 // statusSound: a positive poll answer is given only for content the receiver
@@ -230,7 +231,14 @@ func H_C01_Versions(v *verifrt.T) {
 // of v2 arrives; the receiver restarts. Whatever is delivered as b afterwards
 // must be byte-identical to the version whose hash is written to the log, and
 // must not overtake a.
-func H_C01_Superseded(v *verifrt.T) {
+func H_C01_Superseded(v *verifrt.T) { c01superseded(v, false) }
+
+// H_C01_SupersededUnvalidated: the same, but version 2 is received completely
+// and the receiver dies before it has validated it (engine only: a process
+// cannot be killed between two goroutines natively).
+func H_C01_SupersededUnvalidated(v *verifrt.T) { c01superseded(v, true) }
+
+func c01superseded(v *verifrt.T, v2complete bool) {
 	size := v.Int64("size")
 	v.Assume(size >= 2)
 	v.Assume(size <= 4096)
@@ -243,9 +251,16 @@ func H_C01_Superseded(v *verifrt.T) {
 	v.Assert(e.sendPart("b", "a", h1, size, 0, size, "v1") == nil, "part received")
 	v.Quiesce()
 	v.Assert(v.Exists(filepath.Join(e.stage, "b"+waitExt)), "set-up: v1 of b is held waiting for a")
-	// new version of b announced, first part only
+	// new version of b announced: first part only — or both parts, with the
+	// receiver dying before it has validated the complete new version
 	v.Assert(e.sendPart("b", "a", h2, size, 0, m, "v2") == nil, "part received")
-	v.Quiesce()
+	if v2complete {
+		v.Assert(e.sendPart("b", "a", h2, size, m, size, "v2") == nil, "part received")
+		// no Quiesce: killed before the validators run
+		v.Reach("v2-complete-unvalidated")
+	} else {
+		v.Quiesce()
+	}
 	e.restart()
 	// now the predecessor arrives
 	hA := v.Version("A", size)
@@ -271,6 +286,9 @@ func H_C01_Superseded(v *verifrt.T) {
 	}
 	// the rest of the new version arrives: it is completed from the parts on
 	// record and delivered under its own hash
+	if v2complete {
+		return
+	}
 	v.Assert(e.sendPart("b", "a", h2, size, m, size, "v2") == nil, "part received")
 	v.Quiesce()
 	v.FireTimers()
